@@ -12,7 +12,7 @@ any other enabled action.  Exploration enumerates every schedule with at most `b
 every execution runs to completion.
 """
 import json
-from .env import HarnessError
+from .env import HarnessError, watchdog_check
 from .harness import World
 
 DROP = "__DROP__"
@@ -89,6 +89,7 @@ def run(scn, prefix, keep_trace=False, strict=True):
         guard = 0
         while True:
             guard += 1
+            watchdog_check()
             if guard > 200000:
                 raise HarnessError("explorer: step horizon exceeded in %s" % scn.name)
             boundary = loop.batch_remaining <= 0
